@@ -118,10 +118,19 @@ def _pc_range(rng_):
     chk, chunk, c_impl, c_model = _PC
     out = []
     for c in chunk[rng_[0]:rng_[1]]:
-        if c.meta.get('impl_only'):
-            out.append([]); continue
-        out.append(vf.compare_case(c, c_impl.get(c.cid, []), c_model.get(c.cid, []), chk.case_tol(c), chk.strict_err_ops))
+        il = c_impl.get(c.cid, [])
+        d = [] if c.meta.get('impl_only') else vf.compare_case(c, il, c_model.get(c.cid, []), chk.case_tol(c), chk.strict_err_ops)
+        pr = None
+        if chk.pure_predicate:
+            pr = safe_predicate(chk, c, il)
+        out.append((d, pr))
     return out
+
+def safe_predicate(chk, c, il):
+    try:
+        return chk.predicate(c, il)
+    except Exception as ex:      # e.g. a dump that is not a tree at all: the oracle cannot even be evaluated
+        return [(0, 'the implementation output is malformed: the property predicate cannot be evaluated on it (%s: %s)' % (type(ex).__name__, str(ex)[:120]))]
 
 def parallel_compare(chk, chunk, c_impl, c_model):
     global _PC
@@ -164,6 +173,7 @@ class PropCheck:
         self.known_classes = {}
 
     # -- to override ------------------------------------------------------------------------------
+    pure_predicate = False     # True: the predicate reads only its arguments (no counters on self) and may be evaluated in the workers
     def gen_cases(self):
         return []
     def case_chunks(self):
@@ -277,11 +287,9 @@ class PropCheck:
             for ci, c in enumerate(chunk):
                 il = c_impl.get(c.cid, [])
                 ml = c_model.get(c.cid, [])
-                d = diffs[ci]
-                try:
-                    p = self.predicate(c, il)
-                except Exception as ex:      # e.g. a dump that is not a tree at all: the oracle cannot even be evaluated
-                    p = [(0, 'the implementation output is malformed: the property predicate cannot be evaluated on it (%s: %s)' % (type(ex).__name__, str(ex)[:120]))]
+                d, p = diffs[ci]
+                if p is None:
+                    p = safe_predicate(self, c, il)
                 if d and self.ignore_disagreement(c, d):
                     self.stats['disagreements_ignored_by_rule'] = self.stats.get('disagreements_ignored_by_rule', 0) + 1
                     d = []
